@@ -1,2 +1,15 @@
 -- Root of the `RefurbVerif` library: every property file.
+import RefurbVerif.Props.C03
+import RefurbVerif.Props.C04
+import RefurbVerif.Props.C08
+import RefurbVerif.Props.C09
+import RefurbVerif.Props.C10
+import RefurbVerif.Props.C11
+import RefurbVerif.Props.C12
+import RefurbVerif.Props.C13
+import RefurbVerif.Props.C14
+import RefurbVerif.Props.C15
+import RefurbVerif.Props.C16
 import RefurbVerif.Props.C17
+import RefurbVerif.Props.C18
+import RefurbVerif.Props.C19
